@@ -24,8 +24,9 @@ def _line(obj):
 
 
 def exec_history(job):
-    from cisco_acl import Wildcard
+    from cisco_acl import Wildcard, Address, AddressAg
     events, obj = [], None
+    cls = job.get("cls", "Wildcard")   # the same machine behind Address / AddressAg (wildcard view of the address)
     for i, s in enumerate(job["steps"]):
         e = dict(tid=job["tid"], i=i, act=s["act"], w=s.get("w", ZW), limit=s.get("limit", 0), exc="", line=ZW, ret=[])
         try:
@@ -35,6 +36,10 @@ def exec_history(job):
                     obj = Wildcard.fprefix(s["text"], max_ncwb=s["limit"])
                 elif s.get("via") == "fsubnet":
                     obj = Wildcard.fsubnet(s["text"], max_ncwb=s["limit"])
+                elif cls == "Address":
+                    obj = Address(lex.wild_text(s["w"]), platform="ios", max_ncwb=s["limit"])
+                elif cls == "AddressAg":
+                    obj = AddressAg(lex.wild_text(s["w"]), platform="nxos", max_ncwb=s["limit"])
                 else:
                     obj = Wildcard(lex.wild_text(s["w"]), max_ncwb=s["limit"])
             elif s["act"] == "SetLine":
@@ -43,7 +48,7 @@ def exec_history(job):
                 obj.max_ncwb = s["limit"]
             elif s["act"] == "QueryIpnets":
                 # driver safety only: never ask the library to expand more than 2^10 networks
-                m = lex.wild_of_text(obj.line)["mask"]
+                m = lex.wild_of_text(obj.line if cls == "Wildcard" else obj.wildcard)["mask"]
                 while m and m[-1] == 1:
                     m = m[:-1]
                 if sum(m) > 10:
@@ -52,12 +57,15 @@ def exec_history(job):
             elif s["act"] == "QueryIpnet":
                 e["ret"] = [lex.pfx_of_net(obj.ipnet)] if obj.ipnet is not None else []
             elif s["act"] == "QueryLine":
-                e["ret"] = [lex.wild_of_text(obj.line), lex.wild_of_text(f"{obj.prefix} {obj.wildmask}"),
-                            lex.wild_of_text(str(obj))]
+                if cls == "Wildcard":
+                    e["ret"] = [lex.wild_of_text(obj.line), lex.wild_of_text(f"{obj.prefix} {obj.wildmask}"),
+                                lex.wild_of_text(str(obj))]
+                else:
+                    e["ret"] = [lex.wild_of_text(obj.wildcard)] * 3
         except Exception as ex:  # noqa
             e["exc"] = core.exc_name(ex)
         if obj is not None:
-            e["line"] = _line(obj)
+            e["line"] = _line(obj) if cls == "Wildcard" else lex.wild_of_text(obj.wildcard)
         events.append(e)
         if obj is None:
             break
@@ -113,6 +121,7 @@ def rand_wild(rng, k_nc, low):
 def random_histories(rng, n, tid0):
     jobs = []
     for t in range(n):
+        cls = rng.choice(["Wildcard", "Wildcard", "Wildcard", "Address", "Address", "AddressAg"])
         limit = rng.choice([0, 1, 2, 3, 5, 8, 10, 16, 30])
         steps = []
         nset = rng.randint(1, 4)
@@ -124,7 +133,7 @@ def random_histories(rng, n, tid0):
             steps.append(dict(act="New" if j == 0 else "SetLine", w=w, limit=limit))
             kk = sum(w["mask"][: 32 - low])
             if rng.random() < 0.25:
-                limit = rng.choice([0, 1, 2, 3, 5, 8, 10, 16, 30, 31])
+                limit = rng.choice([0, 1, 2, 3, 5, 8, 10, 16, 30] + ([31] if cls == "Wildcard" else []))   # 31: refused by Wildcard
                 steps.append(dict(act="SetLimit", limit=limit))
                 limit = min(limit, 30)
             for _ in range(rng.randint(0, 3)):
@@ -132,7 +141,7 @@ def random_histories(rng, n, tid0):
                 if q == "QueryIpnets" and (kk > 10 or limit > 10):
                     q = "QueryIpnet"   # never expand more than 2^10 networks
                 steps.append(dict(act=q))
-        jobs.append(dict(tid=tid0 + t, steps=steps, origin="random"))
+        jobs.append(dict(tid=tid0 + t, steps=steps, origin="random", cls=cls))
     return jobs
 
 
@@ -219,7 +228,10 @@ def concretise(hists, wins, tid0):
                 if s["act"] == "SetLimit":
                     st["limit"] = s["limit"]
                 steps.append(st)
-            jobs.append(dict(tid=t, steps=steps, origin="tlc", window=win.desc()))
+            cls = ["Wildcard", "Address", "Wildcard", "AddressAg"][t % 4]
+            if any(x["act"] == "SetLimit" and x["limit"] > 30 for x in steps):
+                cls = "Wildcard"
+            jobs.append(dict(tid=t, steps=steps, origin="tlc", window=win.desc(), cls=cls))
             t += 1
     return jobs
 
